@@ -10,6 +10,7 @@ import (
 	"os"
 	"path/filepath"
 	"strings"
+	"sync"
 	"time"
 
 	"github.com/bmeg/grip/config"
@@ -51,6 +52,11 @@ type GripServer struct {
 	sources  map[string]gripper.GRIPSourceClient
 	baseDir  string
 	jStorage jobstorage.JobStorage
+
+	// requests are served concurrently:
+	mapLock    sync.RWMutex // guards graphMap and dbs
+	updateLock sync.Mutex   // serializes updateGraphMap
+	schemaLock sync.RWMutex // guards schemas and mappings; held while a schema or mapping graph is rewritten
 }
 
 // NewGripServer initializes a GRPC server to connect to the graph store
@@ -141,6 +147,8 @@ func StartDriver(d config.DriverConfig, sources map[string]gripper.GRIPSourceCli
 }
 
 func (server *GripServer) getGraphDB(graph string) (gdbi.GraphDB, error) {
+	server.mapLock.RLock()
+	defer server.mapLock.RUnlock()
 	if driverName, ok := server.graphMap[graph]; ok {
 		if gdb, ok := server.dbs[driverName]; ok {
 			return gdb, nil
@@ -408,13 +416,17 @@ func (server *GripServer) Serve(pctx context.Context) error {
 				log.WithFields(log.Fields{"graph": graph}).Debug("Loading existing schema into cache")
 				schema, err := server.getGraph(graph)
 				if err == nil {
+					server.schemaLock.Lock()
 					server.schemas[strings.TrimSuffix(graph, schemaSuffix)] = schema
+					server.schemaLock.Unlock()
 				}
 			} else if isMapping(graph) {
 				log.WithFields(log.Fields{"graph": graph}).Debug("Loading existing mapping into cache")
 				mapping, err := server.getGraph(graph)
 				if err == nil {
+					server.schemaLock.Lock()
 					server.mappings[strings.TrimSuffix(graph, mappingSuffix)] = mapping
+					server.schemaLock.Unlock()
 				}
 			}
 		}
